@@ -1379,6 +1379,9 @@ OPNMIDI_EXPORT int opn2_setTrackOptions(struct OPN2_MIDIPlayer *device, size_t t
             return -1;
         break;
     case OPNMIDI_TrackOption_Solo:
+        // ~0 means "no solo track"; any other number must designate a track of the sequence
+        if(trackNumber != ~static_cast<size_t>(0) && trackNumber >= seq.getTrackCount())
+            return -1;
         seq.setSoloTrack(trackNumber);
         break;
     }
